@@ -339,7 +339,7 @@ func execConcRead(p *DPlan, tape *simrt.Tape, keepLog bool) harness.RunOut {
 
 func execConcFlush(p *DPlan, tape *simrt.Tape, keepLog bool) harness.RunOut {
 	s := simrt.New(simrt.Config{DaemonsOK: true, Tape: tape, KeepLog: keepLog})
-	kc := simunix.Config{}
+	kc := simunix.Config{Trace: true}
 	if p.Ordered { // reused as "slow flush" switch for this batch
 		kc.SlowFsyncNs = 1_000_000
 	}
@@ -350,6 +350,8 @@ func execConcFlush(p *DPlan, tape *simrt.Tape, keepLog bool) harness.RunOut {
 	type outcome struct {
 		id        uint64
 		barrierOK bool
+		// system-call counts when the Write had returned and when the Barrier returned
+		wroteAt, barrierAt int
 	}
 	results := make([][]outcome, len(p.Rounds))
 	var openErr error
@@ -373,8 +375,9 @@ func execConcFlush(p *DPlan, tape *simrt.Tape, keepLog bool) harness.RunOut {
 					if pan {
 						return
 					}
+					wroteAt := k.Syscalls()
 					pan, _ = attempt(d.Barrier)
-					results[ci] = append(results[ci], outcome{w.ID, !pan})
+					results[ci] = append(results[ci], outcome{w.ID, !pan, wroteAt, k.Syscalls()})
 				}
 			})
 		}
@@ -401,6 +404,7 @@ func execConcFlush(p *DPlan, tape *simrt.Tape, keepLog bool) harness.RunOut {
 		}
 	}
 	lost := append([]simunix.LostWrite(nil), k.Lost...)
+	trace := append([]simunix.SysRec(nil), k.Trace...)
 	anyBarrierPanicked := false
 	for _, rs := range results {
 		for _, r := range rs {
@@ -456,7 +460,18 @@ func execConcFlush(p *DPlan, tape *simrt.Tape, keepLog bool) harness.RunOut {
 				lostHere = true
 			}
 		}
-		if lostHere && anyBarrierPanicked {
+		// ... but only if, from where the implementation stands, this client's
+		// data WAS flushed: some fsync that began after its Write had returned
+		// came back without error before its Barrier returned (the kernel had
+		// already reported the error to someone else). A Barrier that returns
+		// on the strength of a flush that failed is not excused.
+		flushedOK := false
+		for _, rec := range trace {
+			if (rec.Op == "fsync" || rec.Op == "fdatasync") && rec.Errno == 0 && rec.N >= rs[lastOK].wroteAt && rec.N < rs[lastOK].barrierAt {
+				flushedOK = true
+			}
+		}
+		if lostHere && anyBarrierPanicked && flushedOK {
 			out.Probes["block_lost_by_another_clients_failed_fsync"]++
 			continue
 		}
